@@ -32,8 +32,10 @@ def ivPow (a : Iv) : Nat → Iv
 def relTol : Q := ⟨1, 10 ^ 9⟩
 
 /-- is `v` inside the enclosure widened by the relative tolerance? -/
-def ivContains (a : Iv) (v : Q) : Bool :=
-  Q.le (a.lo * (Q.ofInt 1 - relTol)) v && Q.le v (a.hi * (Q.ofInt 1 + relTol))
+def ivContainsTol (tol : Q) (a : Iv) (v : Q) : Bool :=
+  Q.le (a.lo * (Q.ofInt 1 - tol)) v && Q.le v (a.hi * (Q.ofInt 1 + tol))
+
+def ivContains (a : Iv) (v : Q) : Bool := ivContainsTol relTol a v
 
 def valOf (c : Case) (n : String) : Option (Except String Q) :=
   match c.ob n with
@@ -70,19 +72,31 @@ def runMeas (c : Case) : Res :=
       if tiny then return { status := "skip", stats := "meas.tiny" :: stats }
       let expectErr (n : String) : List String :=
         match valOf c n with
-        | some (.ok v) => [s!"{n} returned a finite value ({repr v}) for an exactly degenerate simplex"]
+        | some (.ok v) => [s!"{n} returned a finite value ({qShow v}) for an exactly degenerate simplex"]
         | _ => []
-      let check (n : String) (iv : Iv) : List String :=
+      -- conditioning of the volume computation: κ = ∏|p_i − p_0| / |det| (inverse Hadamard ratio).
+      -- For D ≥ 4 the implementation uses the Gram determinant, whose relative error grows like
+      -- ε·κ²: Gram-based quantities are compared at 1e-9 + 1e-15·κ² (≈ D·ε·κ²; κ = 10³ doubles the base
+      -- tolerance) and not at all once that exceeds 1e-3.
+      let p0i := s.headD []
+      let had2 : Int := (s.drop 1).foldl (fun acc p => acc * ((p.zip p0i).foldl (fun a (x, y) => a + (x - y) * (x - y)) 0)) 1
+      let kappa2 : Q := if vd == 0 then Q.ofInt 0 else ⟨had2, (vd * vd).toNat⟩
+      let gramTol : Q := if d ≥ 4 then relTol + (⟨1, 10 ^ 15⟩ : Q) * kappa2 else relTol
+      let veryThin := Q.lt ⟨1, 1000⟩ gramTol
+      if d ≥ 4 && Q.lt (Q.ofInt 2 * relTol) gramTol then stats := (if veryThin then "meas.gram.very_thin" else "meas.gram.thin") :: stats
+      let checkT (tol : Q) (n : String) (iv : Iv) : List String :=
         match valOf c n with
-        | some (.ok v) => if ivContains iv v then [] else [s!"{n} = {repr v} is outside the exact value's enclosure [{repr iv.lo}, {repr iv.hi}] (rel 1e-9)"]
+        | some (.ok v) => if ivContainsTol tol iv v then [] else [s!"{n} = {qShow v} is outside the exact value's enclosure [{qShow iv.lo}, {qShow iv.hi}] (rel {qShow tol})"]
         | some (.error e) => [s!"{n} failed ({e}) on a non-degenerate simplex"]
         | none => []
+      let check (n : String) (iv : Iv) : List String := checkT relTol n iv
+      let checkG (n : String) (iv : Iv) : List String := if veryThin then [] else checkT gramTol n iv
       if degenerate then
         for n in ["volume", "circumradius", "inradius", "circumcenter", "radius_ratio", "normalized_volume"] do
           bad := expectErr n ++ bad
       else
         let volIv : Iv := ⟨volExact, volExact⟩
-        bad := check "volume" volIv ++ bad
+        bad := checkG "volume" volIv ++ bad
         -- circumradius
         let (r2n, r2d) := circumradius2 s
         let r2 : Q := (if r2d == 0 then Q.ofInt 0 else ⟨r2n, r2d.toNat⟩) * unitPow 2
@@ -103,7 +117,7 @@ def runMeas (c : Case) : Res :=
                   (if den > 0 then (⟨nums.getD j 0, den.toNat⟩ : Q) else ⟨-(nums.getD j 0), (-den).toNat⟩))) * unit
                 let got := Q.ofDy (cc.getD j Dy.zero)
                 if !(Q.le (Q.abs (got - exact)) tolA) then
-                  if bad.length < 6 then bad := s!"circumcenter[{j}] = {repr got}, exact {repr exact}" :: bad
+                  if bad.length < 6 then bad := s!"circumcenter[{j}] = {qShow got}, exact {qShow exact}" :: bad
             | none => bad := "circumcenter has non-finite coordinates" :: bad
         | none => pure ()
         -- facet measures and their sum
@@ -118,7 +132,7 @@ def runMeas (c : Case) : Res :=
             if m2.num > 0 then bad := check s!"facet{i}" mIv ++ bad
           -- inradius = D V / S
           let inIv := ivDiv (ivScale (Q.ofInt d) volIv) surface
-          bad := check "inradius" inIv ++ bad
+          bad := checkG "inradius" inIv ++ bad
           -- normalised volume = V / (mean edge length)^D
           let els := edgeLens2 s
           let sumE := els.foldl (fun acc e => ivAdd acc (sqrtIv (Q.ofInt e * unitPow 2))) ⟨Q.ofInt 0, Q.ofInt 0⟩
@@ -133,9 +147,9 @@ def runMeas (c : Case) : Res :=
             | some (.error e) => e == "err:DegenerateCell"
             | _ => false
           if refused "radius_ratio" && Q.lt inIv.lo eps2 then stats := "meas.quality.refused" :: stats
-          else bad := check "radius_ratio" (ivDiv rIv inIv) ++ bad
+          else bad := checkG "radius_ratio" (ivDiv rIv inIv) ++ bad
           if refused "normalized_volume" && (Q.lt volExact eps2 || Q.lt avg.lo eps2 || Q.lt (ivPow avg d).lo eps2) then
             stats := "meas.quality.refused" :: stats
-          else bad := check "normalized_volume" (ivDiv volIv (ivPow avg d)) ++ bad
+          else bad := checkG "normalized_volume" (ivDiv volIv (ivPow avg d)) ++ bad
       if !bad.isEmpty then return { status := "ORACLE", detail := " ; ".intercalate (bad.reverse.take 5), stats := stats }
       return { status := "ok", stats := stats }
